@@ -75,6 +75,12 @@ fn c16_from_str_arith() {
     note(format!("template: {n_units} integer digits, {n_frac} fraction digits"));
     let r = AttoTokens::from_str(&text);
     let parsed: Vec<(String, SymU<256>)> = shim::PARSED.with(|p| p.borrow().clone());
+    if parsed.is_empty() {
+        // rejected before any digit was looked at: only legitimate if the shape itself is unacceptable
+        cover("rejected");
+        check_bool("from_str:well_formed_decimal_not_rejected_unparsed", r.is_err() && n_frac > 18);
+        return;
+    }
     let units = parsed[0].1;
     let max_units = SymU::<256>::max_value().udiv(ten18());
     match r {
